@@ -242,7 +242,8 @@ Proof.
     apply Z.mod_pow2_bits_high; lia.
 Qed.
 
-(* loops: one unit of fuel per test of the condition; the body and the step run with what is left *)
+(* loops: one unit of fuel per test of the condition; the body and the step run with what is left; a break in the body leaves
+   the loop *)
 Lemma exec_loop_enter f m rho tr k c body step r v :
   ceval rho m c = Some v -> v <> 0 ->
   exec (S f) m rho tr (SLoop k true c body step :: r) =
@@ -250,6 +251,7 @@ Lemma exec_loop_enter f m rho tr k c body step r v :
     | Fell rho2 tr2 => match exec f m rho2 tr2 step with
                        | Fell rho3 tr3 => exec f m rho3 tr3 (SLoop k true c body step :: r)
                        | o => o end
+    | Broke rho2 tr2 => exec f m rho2 tr2 r
     | o => o end.
 Proof. intros H Hv. cbn [exec]. rewrite H. destruct (Z.eqb_spec v 0); [contradiction | reflexivity]. Qed.
 
@@ -266,6 +268,7 @@ Lemma exec_loop_b2z f m rho tr k c body step r (b : bool) :
       | Fell rho2 tr2 => match exec f m rho2 tr2 step with
                          | Fell rho3 tr3 => exec f m rho3 tr3 (SLoop k true c body step :: r)
                          | o => o end
+      | Broke rho2 tr2 => exec f m rho2 tr2 r
       | o => o end
     else exec f m rho tr r.
 Proof.
@@ -281,7 +284,21 @@ Lemma exec_loop_do f m rho tr k c body step r :
     | Fell rho2 tr2 => match exec f m rho2 tr2 step with
                        | Fell rho3 tr3 => exec f m rho3 tr3 (SLoop k true c body step :: r)
                        | o => o end
+    | Broke rho2 tr2 => exec f m rho2 tr2 r
     | o => o end.
+Proof. reflexivity. Qed.
+
+(* switch: the body of the case that carries the value (the default otherwise); break or the end of the body leaves it *)
+Lemma exec_switch f m rho tr k e cases default r v :
+  ceval rho m e = Some v ->
+  exec (S f) m rho tr (SSwitch k e cases default :: r) =
+    match exec f m rho tr (pick_case v cases default) with
+    | Fell rho' tr' => exec f m rho' tr' r
+    | Broke rho' tr' => exec f m rho' tr' r
+    | o => o end.
+Proof. intros H. cbn [exec]. rewrite H. reflexivity. Qed.
+
+Lemma exec_break f m rho tr r : exec (S f) m rho tr (SBreak :: r) = Broke rho tr.
 Proof. reflexivity. Qed.
 
 (* more fuel does not change a run that did not run out of it *)
@@ -292,36 +309,42 @@ Proof.
   - cbn [exec] in He. congruence.
   - change (S f + d)%nat with (S (f + d)). destruct l as [ | s r].
     + exact He.
-    + destruct s as [k x e | k g args | k c a b | k pre c body step | k e | x | w]; cbn [exec] in He |- *.
+    + destruct s as [k x e | k g args | k c a b | k pre c body step | k e | k e cases default | | x | w]; cbn [exec] in He |- *.
       * destruct (ceval rho m e); [ apply IH; assumption | exact He ].
       * destruct (evals rho m args); [ apply IH; assumption | exact He ].
       * destruct (ceval rho m c) as [v | ]; [ | exact He ].
-        destruct (exec f m rho tr (if negb (v =? 0) then a else b)) as [rho1 tr1 | v1 rho1 tr1 | why | ] eqn:E.
-        -- rewrite (IH _ _ _ _ _ d E) by discriminate. apply IH; assumption.
-        -- rewrite (IH _ _ _ _ _ d E) by discriminate. exact He.
-        -- rewrite (IH _ _ _ _ _ d E) by discriminate. exact He.
-        -- congruence.
+        destruct (exec f m rho tr (if negb (v =? 0) then a else b)) as [rho1 tr1 | v1 rho1 tr1 | rho1 tr1 | why | ] eqn:E;
+          try (rewrite (IH _ _ _ _ _ d E) by discriminate);
+          [ apply IH; assumption | exact He | exact He | exact He | congruence ].
       * assert (Hc : forall rho1 tr1,
                   match exec f m rho1 tr1 body with
                   | Fell rho2 tr2 => match exec f m rho2 tr2 step with
                                      | Fell rho3 tr3 => exec f m rho3 tr3 (SLoop k true c body step :: r)
                                      | o => o end
+                  | Broke rho2 tr2 => exec f m rho2 tr2 r
                   | o => o end = o ->
                   match exec (f + d) m rho1 tr1 body with
                   | Fell rho2 tr2 => match exec (f + d) m rho2 tr2 step with
                                      | Fell rho3 tr3 => exec (f + d) m rho3 tr3 (SLoop k true c body step :: r)
                                      | o => o end
+                  | Broke rho2 tr2 => exec (f + d) m rho2 tr2 r
                   | o => o end = o).
         { intros rho1 tr1 H1.
-          destruct (exec f m rho1 tr1 body) as [rho2 tr2 | v2 rho2 tr2 | why | ] eqn:E; try congruence;
-            rewrite (IH _ _ _ _ _ d E) by discriminate; [ | exact H1 | exact H1 ].
-          destruct (exec f m rho2 tr2 step) as [rho3 tr3 | v3 rho3 tr3 | why | ] eqn:E'; try congruence;
-            rewrite (IH _ _ _ _ _ d E') by discriminate; [ | exact H1 | exact H1 ].
-          apply IH; assumption. }
+          destruct (exec f m rho1 tr1 body) as [rho2 tr2 | v2 rho2 tr2 | rho2 tr2 | why | ] eqn:E;
+            try (rewrite (IH _ _ _ _ _ d E) by discriminate);
+            [ | exact H1 | apply IH; assumption | exact H1 | congruence ].
+          destruct (exec f m rho2 tr2 step) as [rho3 tr3 | v3 rho3 tr3 | rho3 tr3 | why | ] eqn:E';
+            try (rewrite (IH _ _ _ _ _ d E') by discriminate);
+            [ apply IH; assumption | exact H1 | exact H1 | exact H1 | congruence ]. }
         destruct pre.
         -- destruct (ceval rho m c) as [v | ]; [ | exact He ].
            destruct (negb (v =? 0)); [ apply Hc; exact He | apply IH; assumption ].
         -- apply Hc; exact He.
+      * destruct e as [e | ]; [ destruct (ceval rho m e); exact He | exact He ].
+      * destruct (ceval rho m e) as [v | ]; [ | exact He ].
+        destruct (exec f m rho tr (pick_case v cases default)) as [rho1 tr1 | v1 rho1 tr1 | rho1 tr1 | why | ] eqn:E;
+          try (rewrite (IH _ _ _ _ _ d E) by discriminate);
+          [ apply IH; assumption | exact He | apply IH; assumption | exact He | congruence ].
       * exact He.
       * apply IH; assumption.
       * exact He.
